@@ -111,6 +111,9 @@ func moduleText(d desc) string {
 	fmt.Fprintf(&sb, "module %s { namespace \"urn:%s\"; prefix %s; description %q;\n", d.Name, d.Name, d.Name, d.Tag)
 	revs := append([]int{}, d.Revs...)
 	sort.Sort(sort.Reverse(sort.IntSlice(revs)))
+	if len(revs) > 1 && len(d.Tag)%2 == 1 {
+		sort.Ints(revs) // the revision statements may be written in any order: this text has the oldest first
+	}
 	for _, r := range revs {
 		fmt.Fprintf(&sb, "  revision %s;\n", date(r))
 	}
